@@ -47,7 +47,8 @@ def encErr : Err → String
   | .crash => "crash" | .other => "other"
 
 /-- only the `STFS.*` keys are compared (a tape parse adds the standard PAX keys) -/
-def stfsPax (p : Pax) : Pax := p.filter (fun kv => hasPrefix kv.1 Gen.recSTFSPrefix)
+def stfsPax (p : Pax) : Pax := p.filter (fun kv => hasPrefix kv.1 Gen.recSTFSPrefix &&
+  kv.1 != Gen.recSTFSRecordSignature && kv.1 != Gen.recSTFSRecordEmbeddedHeader)
 
 def encRow (r : Row) : String :=
   "\t".intercalate ["row", encName r.name, encName r.linkname, toString r.hdr.typeflag, toString r.hdr.size,
